@@ -67,6 +67,8 @@ pub fn check_apng(o: &mut Out, b: &Built, rng: &mut Rng) {
     }
 }
 
+fn rng_off(rng: &mut Rng, max: u32) -> u32 { rng.range(0, max as u64) as u32 }
+
 pub fn run(a: &Args) {
     let mut o = Out::new(&a.out);
     let mut rng = Rng::new(a.seed);
@@ -93,6 +95,18 @@ pub fn run(a: &Args) {
                 }
             }
         }
+    }
+    // wide frames (rows of several KiB; every filter type occurs on first rows of frames and of Adam7 passes): the row kernels work in blocks
+    // and with unrolled loops whose boundaries only show on long rows
+    for k in 0..(if thorough { 240 } else { 30 }) {
+        let cw = *rng.pick(&[400u32, 513, 1537, 1600, 2049, 3100]);
+        let ch = rng.range(2, 3) as u32;
+        let fw = cw - rng.range(0, 20) as u32;
+        let fh = rng.range(1, ch as u64) as u32;
+        let (fx, fy) = (rng_off(&mut rng, cw - fw), rng_off(&mut rng, ch - fh));
+        let b = crate::gen::apng_with_rect(&mut rng, cw, ch, fw, fh, fx, fy, k % 3 == 0);
+        o.count("wide-frames");
+        check_apng(&mut o, &b, &mut rng);
     }
     // frames a little above 32 / 64 / 128 KiB of highly compressible data: the last rows of a frame are released only with the flush at the
     // chunk behind the frame's data (the frame has then to be counted all the same, and end-of-image reported after the last one)
